@@ -130,6 +130,21 @@ def finish(prop, tier, repo_root, db, results, lemma_results, wall, verbose=Fals
         rep["native_replay"] = {"exit": code, "output": out}
         json.dump(rep, open(path, "w"), indent=1, default=str)
         violations.append((r["fn"], name, path, code, e))
+    # ---- bounded stand-ins: a failing case is a concrete failing input of the real function
+    for b in (extra or {}).get("bounded_failures", []):
+        d = os.path.join(HERE, "out", "replay", prop)
+        os.makedirs(d, exist_ok=True)
+        path = os.path.join(d, slug(f"bounded__{b['name']}") + ".json")
+        json.dump({"property": prop, "fn": b.get("fn"), "obligation": f"bounded:{b['name']}", "bound": b.get("bound"),
+                   "failing_cases": b.get("failures"), "replay_cmd": f"/venv/bin/python /verif/replaylib/bounded.py {b['name']} {repo_root} {tier}"},
+                  open(path, "w"), indent=1)
+        violations.append((b.get("fn"), f"bounded:{b['name']}", path, 1,
+                           {"where": f"bounded stand-in found {b['n_failures']} failing case(s): {b['failures'][:1]}"}))
+    for b in (extra or {}).get("bounded", []):
+        print(f"[bounded] {b.get('name')}: evaluations={b.get('evaluations')} failures={b.get('n_failures')} bound={b.get('bound')}"
+              + (f" ERROR {b.get('error')}" if b.get("error") else ""))
+        if b.get("error"):
+            crashes.append({"fn": b.get("name"), "crash": b.get("error")})
     # ---- print
     for r in allres:
         tag = "ok"
@@ -211,6 +226,7 @@ def write_evidence(prop, tier, repo_root, db, allres, n_ob, n_dis, per_ob, sampl
             "undecided": [{"fn": r["fn"], "obligation": n} for r, n, _e in undecided],
             "unsupported": [{"fn": r["fn"], "reason": r["error"]} for r in errors],
             "violations": [{"fn": fn, "obligation": n, "replay": p, "native_replay_exit": rc} for fn, n, p, rc, _e in violations],
+            "functions_with_bounded_stand_in_only": [b.get("fn") for b in extra.get("bounded", []) if isinstance(b, dict)],
             "property_clauses_not_decided": not_decided,
             "bounded_stand_ins": extra.get("bounded", []),
             "crosscheck": extra.get("crosscheck", {}),
